@@ -33,6 +33,23 @@ CLAIMED.update({
             "deliberately colliding coordinates executed in fresh processes under 8/50 PYTHONHASHSEED values, digests compared",
             "Coq theorem on the only order-sensitive choice point + cross-process digest comparison", "DESIGN.md 3/C16"),
 })
+CLAIMED.update({
+    "C04": ("Machine-checked validator: graph IR with node-by-node symbolic evaluation, straight-line Python subset with symbolic execution, "
+            "theorem that symbolic execution equals a concrete store-passing execution for every interpretation of the primitives "
+            "(history-dependent calls = mutation), hence agree => the text computes what the graph denotes (Props/C04.v). Every captured "
+            "(optimised graph, text) pair is validated by the extracted checker; the text is also exec()-uted and compared with a direct "
+            "node-by-node evaluation of the real graph, with einx's own result, and with the cached callable's code object",
+            "translation validation with a Coq-verified validator + differential execution", "DESIGN.md 3/C04"),
+    "C05": ("Term model of the optimiser with numpy's row-major meaning of reshape/transpose; theorems norm_sound / equiv_sound / "
+            "merge_transpose / merge_reshape / every-change-shrinks (Props/C05.v), rules instantiated from the regenerated Gen/GenOpt.v; "
+            "every captured and synthetic (before, after) pair is checked by the extracted equivalence checker, evaluated node by node on "
+            "data, and compared on its in-place effect events; all permutation pairs up to rank 4/5",
+            "Coq proof of the rewrite system + verified equivalence checker on captured pairs + differential evaluation", "DESIGN.md 3/C05"),
+    "C17": ("Theorem (Props/C17.v): in the straight-line language every execution performs at most as many calls as there are call sites "
+            "in the text; the text returned by graph=True must decode into that language (fail closed) and keep its skeleton under "
+            "scaling of all non-unit axis lengths",
+            "Coq theorem on the code language + ast/skeleton correspondence under size scaling", "DESIGN.md 3/C17"),
+})
 EXTRA_NOTES = {}
 
 
